@@ -30,7 +30,7 @@ RULE = ('One run = one acyclic workbook, one load schedule and a history of '
         'overridden constant cells / formula cells / array-formula cells / '
         'defined names / multi-cell ranges / whole rows and values of every '
         'kind (numbers, text, logicals, errors, blanks, typed numpy arrays). '
-        '15 % of the worlds are circular (finish(circular=True)) and the '
+        '20 % of the worlds are circular (finish(circular=True)) and the '
         'observed overrides put a constant on every cycle. '
         'Non-trivial: the history has >= 1 earlier operation with a different '
         'input set AND the observed overrides change >= 1 formula cell that '
@@ -309,7 +309,7 @@ def generate(seed, tier):
         from ..world import add_whole_refs
         add_whole_refs(Rng(seed, 'whole'), world)
     breakers = None
-    if sw.chance(.15):
+    if sw.chance(.2):
         world, breakers = gen_circular(seed, t)
     frng = Rng(seed, 'fault')
     # SIMFAULT wrappers around some formulas
@@ -463,6 +463,8 @@ def gen_circular(seed, t):
         w_ifs=0, w_ifna=0,
     )
     world = gen_world(rng, prof)
+    if sw.chance(.7):
+        add_ring(sw, world, sw.randrange(2, 5))
     G = Graph(world)
     left = [set(c) for c in G.cycles()]
     breakers = []
@@ -480,9 +482,36 @@ def gen_circular(seed, t):
     # a member of a cycle that is NOT overridden also reads a chain of
     # formulas outside the cycle: its value is settled late in the calculation
     on = sorted(G.on_cycle() - set(breakers))
-    if on and sw.chance(.6):
-        add_feeder_chain(sw, world, sw.pick(on), sw.randrange(1, 6))
+    if on and sw.chance(.8):
+        add_feeder_chain(sw, world, sw.pick(on), sw.randrange(2, 7))
     return world, sorted(breakers)
+
+
+def add_ring(rng, world, k):
+    """k cells in a new row, each reading the next and the last the first
+    (random worlds mostly hold self-references), plus a reader of one."""
+    idx = Index(world)
+    b = rng.randrange(len(world['books']))
+    s = rng.randrange(len(world['books'][b]))
+    h, w = world['books'][b][s]
+    covered = set(idx.occ)
+    for x in world['cells']:
+        if 'f' in x:
+            for y in refs_of(x['f']):
+                r = y if y[0] == 'r' else world['names'][y[1]]['t']
+                covered.update(rect_cells(r))
+    for n in world['names']:
+        covered.update(rect_cells(n['t']))
+    r0 = max([q[2] for q in covered if q[:2] == (b, s)] + [h - 1]) + 1
+    for j in range(k):
+        nxt = ['r', b, s, r0, (j + 1) % k, r0, (j + 1) % k]
+        world['cells'].append({'at': [b, s, r0, j], 'f': [
+            'op', rng.pick(['+', '+', '-', '*']), nxt,
+            ['n', rng.randrange(1, 5)]]})
+    m = rng.randrange(k)
+    world['cells'].append({'at': [b, s, r0, k], 'f': [
+        'op', '*', ['r', b, s, r0, m, r0, m], ['n', 2]]})
+    world['books'][b][s] = [max(h, r0 + 1), max(w, k + 1)]
 
 
 def add_feeder_chain(rng, world, i, depth):
